@@ -134,6 +134,38 @@ type c17Value struct {
 	P       m.Packet
 	Bitrate *uint32 `json:",omitempty"` // float32 bits to plant into a REMB
 	Enum    *uint8  `json:",omitempty"` // value planted into enum-like fields (SDES type, XR ToH)
+	// EmptyNonNil: every nil slice of the constructed packet is replaced by an empty, allocated
+	// one (what `[]T{}` or a re-sliced buffer gives a caller) - "empty lists" come in both forms.
+	EmptyNonNil bool `json:",omitempty"`
+}
+
+// makeEmptySlicesNonNil walks a constructed packet and allocates every nil slice.
+func makeEmptySlicesNonNil(v reflect.Value, depth int) {
+	if depth > 10 {
+		return
+	}
+	switch v.Kind() {
+	case reflect.Ptr, reflect.Interface:
+		if !v.IsNil() {
+			makeEmptySlicesNonNil(v.Elem(), depth+1)
+		}
+	case reflect.Struct:
+		for i := 0; i < v.NumField(); i++ {
+			if v.Field(i).CanSet() || v.Field(i).Kind() == reflect.Ptr || v.Field(i).Kind() == reflect.Interface || v.Field(i).Kind() == reflect.Struct || v.Field(i).Kind() == reflect.Slice {
+				makeEmptySlicesNonNil(v.Field(i), depth+1)
+			}
+		}
+	case reflect.Slice:
+		if v.IsNil() {
+			if v.CanSet() {
+				v.Set(reflect.MakeSlice(v.Type(), 0, 0))
+			}
+			return
+		}
+		for i := 0; i < v.Len(); i++ {
+			makeEmptySlicesNonNil(v.Index(i), depth+1)
+		}
+	}
 }
 
 func c17Build(c c17Value) rtcp.Packet {
@@ -185,6 +217,9 @@ func c17Build(c c17Value) rtcp.Packet {
 		}
 	}
 	walk(pk)
+	if c.EmptyNonNil {
+		makeEmptySlicesNonNil(reflect.ValueOf(pk), 0)
+	}
 	return pk
 }
 
@@ -274,6 +309,7 @@ func genC17Value(t *rapid.T) c17Value {
 		e := gen.U8(t, "enum")
 		c.Enum = &e
 	}
+	c.EmptyNonNil = rapid.IntRange(0, 2).Draw(t, "empty.nonnil?") == 0
 	return c
 }
 
@@ -315,6 +351,23 @@ func TestC17(t *testing.T) {
 		harness.Record(subC17Value.Name, c, c17NonTrivial(c), classesOf(c.P)...)
 		subC17Value.Check(rt, c)
 	})
+	// (ii') every kind as a zero-ish value with empty-but-allocated lists (deterministic)
+	if harness.Cfg.Shard == 0 {
+		for _, k := range append(append([]m.Kind(nil), gen.LeafKinds...), m.KCOMPOUND) {
+			p := m.Packet{Kind: k, SR: &m.SR{}, RR: &m.RR{}, SDES: &m.SDES{Chunks: []m.SDESChunk{{}}}, BYE: &m.BYE{}, APP: &m.APP{Name: []byte("name")}, NACK: &m.NACK{}, RRR: &m.FB{}, PLI: &m.FB{},
+				SLI: &m.SLI{}, FIR: &m.FIR{}, REMB: &m.REMB{}, TWCC: &m.TWCC{}, CCFB: &m.CCFB{Blocks: []m.CCFBBlock{{}}}, RAW: []byte{0x80, 192, 0, 0},
+				XR: &m.XR{Blocks: []m.XRBlock{{BT: 1}, {BT: 3}, {BT: 5}, {BT: 9}}}}
+			if k == m.KCOMPOUND {
+				p.Compound = []m.Packet{{Kind: m.KRR, RR: &m.RR{}}, {Kind: m.KXR, XR: &m.XR{}}, {Kind: m.KSDES, SDES: &m.SDES{}}}
+			}
+			for _, nn := range []bool{false, true} {
+				c := c17Value{P: p, EmptyNonNil: nn}
+				subC17Value.Check(t, c)
+				harness.Eval(subC17Value.Name+"/empty-lists", 1)
+				harness.NonTrivialDistinct(1)
+			}
+		}
+	}
 	// (iii) REMB: decoded from every exponent x mantissa (quick: 4096 strided mantissas per exponent)
 	lo, hi := harness.ShardRange(64)
 	step := uint32(64)
